@@ -346,5 +346,54 @@ func directedHistories() []history {
 		}
 		hs = append(hs, history{name: "negotiation-reversed:" + name, reqs: bw, hdr: name})
 	}
+	// round 4: requests that READ the server's long-lived schema through code that could write it. Every
+	// introspection text of the directed family, in chunks: before and after a chunk the block of requests whose
+	// validity / answer depends on what the schema declares (nullability, defaults, deprecation), over POST and GET;
+	// then the chunk once more (an introspection answer must not depend on earlier introspection either)
+	it := directedIntroTexts()
+	for c := 0; c < len(it); c += 5 {
+		end := c + 5
+		if end > len(it) {
+			end = len(it)
+		}
+		var reqs []*rq
+		reqs = append(reqs, nullabilityBlock(c/5)...)
+		for _, t := range it[c:end] {
+			reqs = append(reqs, jsonPost(t, "", nil))
+		}
+		reqs = append(reqs, nullabilityBlock(c/5+1)...)
+		for i, t := range it[c:end] {
+			if i%2 == 0 {
+				reqs = append(reqs, get(t, "", []kvp{{"d", `true`}}, nil))
+			} else {
+				reqs = append(reqs, jsonPost(t, "", []kvp{{"d", `true`}}))
+			}
+		}
+		hs = append(hs, history{name: fmt.Sprintf("introspection-then-dependent-requests:%d", c/5), reqs: reqs})
+	}
 	return hs
+}
+
+// nullabilityBlock: every text of the nullability family, with a variable set that declares one of its variables
+// (rotating with k) or with none
+func nullabilityBlock(k int) []*rq {
+	var out []*rq
+	for ti, t := range nullabilityTexts {
+		var fit [][]kvp
+		for _, vs := range nullabilityVars {
+			if len(vs) > 0 && strings.Contains(t, "$"+vs[0].k+":") {
+				fit = append(fit, vs)
+			}
+		}
+		var vars []kvp
+		if len(fit) > 0 && (ti+k)%3 != 2 {
+			vars = fit[(ti+k)%len(fit)]
+		}
+		if (ti+k)%4 == 3 {
+			out = append(out, get(t, "", vars, nil))
+		} else {
+			out = append(out, jsonPost(t, "", vars))
+		}
+	}
+	return out
 }
